@@ -30,3 +30,9 @@ func VerifC07ParsePageSelectors(prelude []pa.Token) (out []VerifC07PageSelector,
 	}
 	return out, true
 }
+
+// VerifC07ParseMediaQuery exposes parseMediaQuery; a nil result (invalid query) is ok = false.
+func VerifC07ParseMediaQuery(tokens []pa.Token) (media []string, ok bool) {
+	media = parseMediaQuery(tokens)
+	return media, media != nil
+}
